@@ -481,9 +481,18 @@ impl Config {
                             .ok_or_else(|| {
                                 Error::InvalidConfig("apply-subnet cannot be nil".into())
                             })?;
+                        if subnet.prefixlen < 8 {
+                            return Err(Error::InvalidConfig(format!(
+                                "apply-subnet {} is too large to be a DHCP pool (shortest supported prefix is /8)",
+                                subnet
+                            )));
+                        }
                         let base: u32 = subnet.network().into();
                         let addresses = addresses.get_or_insert_with(Vec::new);
-                        for i in 1..(((1 << (32 - subnet.prefixlen)) - 1) - 1) {
+                        /* All but the first (network) and last (broadcast) address. */
+                        let last_host =
+                            (1_u64 << (32 - u32::from(subnet.prefixlen))).saturating_sub(2) as u32;
+                        for i in 1..=last_host {
                             addresses.push((base + i).into())
                         }
                     }
